@@ -97,6 +97,7 @@ var invalidProbes = []invalidProbe{
 	{"pattern", map[string]string{"/cons/pat": "xyz"}, false},
 	{"length", map[string]string{"/cons/len": "toolong"}, false},
 	{"range-conversion", map[string]string{"/cons/rng-u": "15"}, true},
+	{"must-via-running", map[string]string{"/cons/mst/a": "off"}, false},
 }
 
 func (c *probeCheck) RunCase(w *core.Worker, idx int, seed uint64, res *core.CaseResult) {
@@ -107,6 +108,14 @@ func (c *probeCheck) RunCase(w *core.Worker, idx int, seed uint64, res *core.Cas
 	run.ds.Dev.CaptureViews = false
 	defer run.close()
 	res.Tracef("pool=%s", poolName)
+	if c.id == "C03" {
+		// two intents the generator never touches: m2's leaf is valid only while m1 says a=on; a transaction that
+		// changes m1 alone sees m2's leaf only through the running config (validation error attributed to "running")
+		if _, ok := run.commit([]stepIntent{{Owner: "m1", Prio: 90, Vals: map[string]string{"/cons/mst/a": "on"}, Kind: "create"},
+			{Owner: "m2", Prio: 91, Vals: map[string]string{"/cons/mst/b": "x"}, Kind: "create"}}); !ok {
+			return
+		}
+	}
 	steps := c.steps(w.Tier)
 	nt1, nt2 := false, false
 	for s := 0; s < steps && !c.mustStop(res); s++ {
@@ -235,6 +244,12 @@ func (c *probeCheck) invalidProbe(run *histRun, next []stepIntent, rng *core.Rng
 	mode := rng.Intn(4) // 0 alone, 1 mixed with the valid intents of the next step, 2 as replace intent alone, 3 replace + valid intents
 	dry := rng.Chance(1, 4)
 	bad := stepIntent{Owner: "bad", Prio: 3, Vals: p.vals, Kind: "invalid:" + p.class}
+	if p.class == "must-via-running" {
+		bad.Owner, bad.Prio = "m1", 90
+		if mode >= 2 {
+			mode -= 2 // not as replace intent
+		}
+	}
 	var step []stepIntent
 	var repl *stepIntent
 	switch mode {
@@ -288,6 +303,19 @@ func (c *probeCheck) cancelProbe(run *histRun, step []stepIntent, byTimeout bool
 	if byTimeout {
 		to = 20 * time.Millisecond
 		how = "timeout"
+	}
+	if byTimeout && run.rng.Chance(1, 2) {
+		// slow device: the push takes longer than the transaction timeout (the timeout must not strike while the
+		// transaction is still being applied)
+		how = "timeout(slow device)"
+		first := true
+		run.ds.Dev.SetHook = func(n int) {
+			if first {
+				first = false
+				time.Sleep(60 * time.Millisecond)
+			}
+		}
+		defer func() { run.ds.Dev.SetHook = nil }()
 	}
 	out := run.set(id, step, nil, to, false)
 	run.canon = append(run.canon, strings.ToUpper(how)+" "+stepString(step))
